@@ -79,7 +79,7 @@ def gen_cases(rng, tier):
         D["order"] = [k for k, _ in m] if rng.random() < 0.5 else []
         extras = [rng.choice(["x", "", "a b", "1;2", "é"]) for _ in range(rng.choice([0, 0, 0, 1, 2]))]
         cases.append({"k": "round", "D": D, "cols": [G.gen_col(rng) for _ in range(6)], "s": G.gen_coord(rng),
-                      "e": G.gen_coord(rng), "m": m, "extras": extras})
+                      "e": G.gen_coord(rng), "m": m, "extras": extras, "toggle": i % 50 == 7})
     # totality
     maxlen = 4 if tier == "quick" else 5
     strings = [""]
@@ -125,6 +125,17 @@ def run_impl(c):
     from gffutils.attributes import Attributes
     if c["k"] == "round":
         D = c["D"]
+        if c.get("toggle"):
+            # printing must not depend on what was printed earlier in this process: print a feature full of reserved
+            # characters with constants.ignore_url_escape_characters switched on, then switch it off again
+            from gffutils import constants
+            constants.ignore_url_escape_characters = True
+            try:
+                str(Feature(attributes={"Note": ["a;b=c,d%e&f\tg\nh\x01"]}, dialect=dict(DIALECTS[0])))
+            except Exception:
+                pass
+            finally:
+                constants.ignore_url_escape_characters = False
         try:
             a = Attributes()
             for k, vs in c["m"]:
